@@ -193,7 +193,13 @@ func propC11Sequential(t *rapid.T) {
 				thereafterAdmit = true
 			}
 		}
-		ent := zapcore.Entry{Level: lvl, Message: msg, Time: time.Unix(0, now)}
+		// only level and message select the counter, only the time selects the window: the logger's name, the
+		// caller and the stack of an entry are irrelevant to the decision
+		ent := zapcore.Entry{Level: lvl, Message: msg, Time: time.Unix(0, now), LoggerName: rapid.SampledFrom([]string{"", "", "db", "api.v1"}).Draw(t, "loggerName")}
+		if ent.LoggerName == "db" {
+			ent.Caller = zapcore.NewEntryCaller(0, "f.go", len(msg), true)
+			ent.Stack = "stack"
+		}
 		before, hb := logs.Len(), len(hooks)
 		if ce := c.Check(ent, nil); ce != nil {
 			ce.Write()
